@@ -2642,9 +2642,12 @@ impl Monitor {
         let mut have_keys: Vec<u64> = actual.iter().map(|e| e.2).collect();
         have_keys.sort();
         if want_keys != have_keys {
+            // after a refused registration earlier in the history a wrong table is C15's business as well ("leaves the
+            // loop intact": the refused source must not take anybody else's registration with it when it goes)
+            let props: &[&'static str] = if self.facts.failed_registrations > 0 { &["C16", "C06", "C07", "C15"] } else { &["C16", "C06", "C07"] };
             return viol(
                 "C16.table",
-                &["C16", "C06", "C07"],
+                props,
                 format!("kernel epoll table holds keys {have_keys:x?}, enabled sources own keys {want_keys:x?} (entries {actual:x?})"),
             );
         }
